@@ -137,6 +137,25 @@ func exprSlots(sc *gen.Script) []slot {
 	return out
 }
 
+// fixAsset rewrites the asset of every literal cap in a source tree.
+func fixAsset(s gen.Source, asset string) {
+	switch s := s.(type) {
+	case *gen.SrcCapped:
+		if m, ok := s.Cap.(*gen.Mon); ok {
+			m.Asset = gen.As(asset)
+		}
+		fixAsset(s.From, asset)
+	case *gen.SrcInorder:
+		for _, x := range s.Srcs {
+			fixAsset(x, asset)
+		}
+	case *gen.SrcAllot:
+		for _, it := range s.Items {
+			fixAsset(it.From, asset)
+		}
+	}
+}
+
 func litOfType(r *rng.R, t string) gen.Expr {
 	switch t {
 	case "number":
@@ -297,6 +316,39 @@ func typeEdit(r *rng.R, cs *gen.Case) (kind, where string) {
 				continue
 			}
 			sd := alls[r.Intn(len(alls))]
+			if r.Bool() {
+				// the forbidden source comes after (or before) a sibling with nested caps
+				var forbidden gen.Source
+				switch r.Intn(3) {
+				case 0:
+					forbidden = &gen.SrcAllot{Items: []*gen.SrcAllotItem{{A: &gen.AllotLit{Lit: &gen.Ratio{Text: "1/2"}}, From: gen.SA("a")}, {A: &gen.AllotRemaining{}, From: gen.SA("b")}}}
+				case 1:
+					forbidden = &gen.SrcOverdraft{Addr: gen.A("a")}
+				default:
+					forbidden = gen.SA("world")
+				}
+				var capped gen.Source
+				switch r.Intn(4) {
+				case 0:
+					capped = &gen.SrcCapped{Cap: gen.M("USD", "5"), From: gen.SA("b")}
+				case 1:
+					capped = &gen.SrcCapped{Cap: gen.M("USD", "9"), From: &gen.SrcCapped{Cap: gen.M("USD", "5"), From: gen.SA("b")}}
+				case 2:
+					capped = &gen.SrcCapped{Cap: gen.M("USD", "9"), From: &gen.SrcAllot{Items: []*gen.SrcAllotItem{{A: &gen.AllotLit{Lit: &gen.Ratio{Text: "1/3"}}, From: gen.SA("b")}, {A: &gen.AllotRemaining{}, From: gen.SA("world")}}}}
+				default:
+					capped = &gen.SrcInorder{Srcs: []gen.Source{gen.SA("b"), &gen.SrcCapped{Cap: gen.M("USD", "4"), From: &gen.SrcCapped{Cap: gen.M("USD", "3"), From: gen.SA("world")}}}}
+				}
+				// the asset of the caps must be the statement's: reuse its asset expression when literal
+				if as, ok := sd.Sent.E.(*gen.Asset); ok {
+					fixAsset(capped, as.Name)
+				}
+				if r.Chance(3, 4) {
+					sd.Src = &gen.SrcInorder{Srcs: []gen.Source{capped, forbidden}}
+				} else {
+					sd.Src = &gen.SrcInorder{Srcs: []gen.Source{forbidden, capped}}
+				}
+				return "send-all-shape", "send.source>after-nested-caps"
+			}
 			switch r.Intn(4) {
 			case 0:
 				sd.Src = &gen.SrcAllot{Items: []*gen.SrcAllotItem{{A: &gen.AllotLit{Lit: &gen.Ratio{Text: "1/2"}}, From: gen.SA("a")}, {A: &gen.AllotRemaining{}, From: gen.SA("b")}}}
